@@ -344,4 +344,16 @@ C19_Holds(c, o) ==
   CASE c = "compiles-in-hostile-scope" -> o.compiled
     [] c = "means-the-same" -> o.compiled => o.sameresult /\ o.sameavail
 C19_Fail(o) == { c \in C19_Conj : ~C19_Holds(c, o) }
+
+(***************************************************************************)
+(* C03  Every supported signature expands to compiling code with the same  *)
+(*      call type.                                                         *)
+(*  o : [compiled: the expansion (and the user's function) compiles,       *)
+(*       witness: both the function and the generated trait method coerce  *)
+(*       to ONE fn-pointer type written from the ORIGINAL signature (for   *)
+(*       async: both futures' Output is the declared type)]                *)
+(***************************************************************************)
+C03_Conj == {"compiles", "same-call-type"}
+C03_Holds(c, o) == CASE c = "compiles" -> o.compiled [] c = "same-call-type" -> o.compiled => o.witness
+C03_Fail(o) == { c \in C03_Conj : ~C03_Holds(c, o) }
 =============================================================================
